@@ -5,8 +5,10 @@ import datetime
 import enum
 
 import attr
+import six
 
 import asn1crypto
+import asn1crypto.x509
 
 from cryptodatahub.common.exception import InvalidValue
 from cryptodatahub.common.key import PublicKeyX509Base
@@ -110,6 +112,17 @@ class SignedCertificateTimestampList(VectorParsable):
 
 
 class PublicKeyX509(PublicKeyX509Base):
+    @classmethod
+    def from_der_checked(cls, der):
+        """Like from_der, but decodes the whole certificate at once. asn1crypto decodes lazily, so a structure that
+        is not a certificate would otherwise be accepted and fail later, when it is inspected or serialised."""
+        try:
+            asn1crypto.x509.Certificate.load(bytes(der), strict=True).native  # pylint: disable=expression-not-assigned
+        except (ValueError, TypeError, KeyError) as e:
+            six.raise_from(InvalidValue(bytes(der), cls, 'certificate'), e)
+
+        return cls.from_der(bytes(der))
+
     @property
     def signed_certificate_timestamps(self):
         for extension in self._certificate['tbs_certificate']['extensions']:
